@@ -111,6 +111,10 @@ class H11Protocol:
 
     async def handle(self, event: Event) -> None:
         if isinstance(event, RawData):
+            if self.connection.their_state is h11.MUST_CLOSE:
+                # The connection closes after the current response,
+                # anything further the client sends is discarded.
+                return
             self.connection.receive_data(event.data)
             await self._handle_events()
         elif isinstance(event, Closed):
@@ -157,6 +161,9 @@ class H11Protocol:
                         status_code=100, headers=self.config.response_headers("h11")
                     )
                 )
+
+            if self.connection.their_state is h11.MUST_CLOSE:
+                break  # Ignore anything pipelined after the final request
 
             try:
                 event = self.connection.next_event()
